@@ -345,7 +345,10 @@ class C20(Spec):
                   'of objects sharing one library, the log of stdio calls is well bracketed: each successful fopen is followed by exactly one fclose of '
                   'that handle before the next fopen, no call ever uses a handle that is not the live one, a deleted or closed object holds nothing), '
                   'C20_roundtrip_reopen / C20_roundtrip_seek (under the reference stdio, bytes written in any chunking are read back identical in any '
-                  'chunking after reopen or seek to the start from any origin; stell equals the byte count, seof is set exactly by an over-read). '
+                  'chunking after reopen or seek to any offset from any origin; stell equals the byte count, seof is set exactly by an over-read), '
+                  'C20_random_access (seek anywhere, write, seek back, read: identical), C20_print_transport (every fragment print_to hands to the '
+                  'File arrives byte for byte), C20_scan_reads_bytes (scan_from is a function of the bytes after the position), '
+                  'C20_double_close_refuted (the code before fix b3448e7 violates close-once on two concrete histories). '
                   'The facts about File.c the proofs rest on (guard before the first stdio call in every wrapper; File_Close guarded and always dropping '
                   'the handle; open/del close a held handle) are re-extracted from the source on every run (C20_guard_table).')
     level_note = ('Trusted: Lean kernel; libc stdio is modelled by a reference implementation validated against glibc on every run (not verified); '
@@ -373,7 +376,7 @@ class C20(Spec):
         def pack(name, seqs, per):
             # several independent histories per process would share files; keep one history per case, but join short ones
             for i, ls in enumerate(seqs): cs.append(Case(f'{name}{i}', ls))
-        n_rt = (40 if quick else 1500) * boost
+        n_rt = (150 if quick else 2500) * boost
         pack('rt', [gen_roundtrip(rng, maxbuf) for _ in range(n_rt)], 1)
         ex = gen_lifecycle_exhaustive(3 if quick else 4)
         # join the exhaustive sequences into files of 64 histories: each starts with `new 4` and must end by deleting it
@@ -384,12 +387,18 @@ class C20(Spec):
                 lines += seq + ['del 4', 'rm 2']
             joined.append(lines)
         pack('life', joined, 1)
-        pack('lifer', [gen_lifecycle_random(rng) for _ in range((30 if quick else 1500) * boost)], 1)
-        pack('closed', [gen_closed(rng) for _ in range((16 if quick else 300) * boost)], 1)
-        pack('text', [gen_text(rng) for _ in range((20 if quick else 800) * boost)], 1)
-        pack('dev', [gen_device(rng) for _ in range((16 if quick else 500) * boost)], 1)
-        pack('soup', [gen_soup(rng, rng.randrange(20, 120 if quick else 400), maxbuf) for _ in range((40 if quick else 1500) * boost)], 1)
+        pack('lifer', [gen_lifecycle_random(rng) for _ in range((100 if quick else 2000) * boost)], 1)
+        pack('closed', [gen_closed(rng) for _ in range((40 if quick else 400) * boost)], 1)
+        pack('text', [gen_text(rng) for _ in range((60 if quick else 1000) * boost)], 1)
+        pack('dev', [gen_device(rng) for _ in range((50 if quick else 600) * boost)], 1)
+        pack('soup', [gen_soup(rng, rng.randrange(20, 120 if quick else 400), maxbuf) for _ in range((150 if quick else 2000) * boost)], 1)
         return cs
+    def model_selfcheck(self, case, m_out):
+        # the driver evaluates the specification `track` on the model's own log of stdio calls, object by object
+        for l in m_out.split('\n'):
+            if l.startswith('R bracketed=') and 'true' not in l:
+                return 'the model\'s own log of stdio calls is not well bracketed (track = none) on this history'
+        return None
     def _pairs(self, case, c_out):
         ops = [l for l in case.lines if l.strip() and not l.startswith('#')]
         return ops, core.lines_with('O ', c_out)
